@@ -384,6 +384,13 @@ RESPELLED = [
      {"hours": 720}],
     [{"years": 1, "days": 1}, {"years": 1, "hours": 24},
      {"days": 366}, {"months": 12, "days": 1}],
+    # magnitudes near the top of what a float still holds exactly (2**53 s
+    # is 285 million years): equal only when the totals are equal
+    [{"days": 20000000000}, {"hours": 480000000000},
+     {"days": 20000000000, "seconds": 0}, {"weeks": 2857142857, "days": 1}],
+    [{"days": 20000000000, "seconds": 1}, {"days": 20000000000},
+     {"days": 20000000000, "seconds": -1}, {"hours": 480000000000,
+                                            "seconds": 1}],
     [{"weeks": 1, "days": 1, "hours": -1}, {"days": 8, "hours": -1},
      {"hours": 191}, {"weeks": 1, "hours": 23}],
     [{"weeks": 5, "months": 1, "days": -1}, {"months": 1, "days": 34},
